@@ -84,7 +84,7 @@ theorem PSt.shift {cap mc : Nat} {A E W L0 Z : Bytes} {c : Conn} {F : Bytes} (h 
 
 /-! ## The aborted preamble, record by record -/
 
-theorem step_params_abort (i : Inner) (hi : InnerOK i) (c padb : Bytes) (res : UInt8) (rest : Bytes)
+theorem step_params_abort (i : Inner) (c padb : Bytes) (res : UInt8) (rest : Bytes)
     (mc : Nat) (hc : c.length < 65536) (hp : padb.length < 256) (hid : i.req.id < 65536) :
     step (.params i 0 0) (Rec.ser { rtype := 2, id := i.req.id, content := c, pad := padb,
                                     reserved := res } ++ rest) mc =
@@ -103,7 +103,7 @@ theorem params_abort_partial (i : Inner) (hi : InnerOK i) (c padb : Bytes) (res 
     (h : w ++ t = Rec.ser { rtype := 2, id := i.req.id, content := c, pad := padb, reserved := res })
     (ht : t ≠ []) (hnf : (run (.params i 0 0) w mc).st.isFinal = false) :
     (run (.params i 0 0) w mc).rem.length < 16 := by
-  have hs := step_params_abort i hi c padb res [] mc hc hp hid
+  have hs := step_params_abort i c padb res [] mc hc hp hid
   simp only [List.append_nil] at hs
   rw [← h] at hs
   rcases run_partial (wf_params_zero hi) (params_hbrk hi w mc) hs hnf with hlt | ⟨r', _, hX, hrem, _⟩
@@ -319,12 +319,19 @@ theorem SRes.mono {S : Conn → Prop} {g : Cfg} {N M : Nat} {c : Conn} (h : SRes
   · exact Or.inl ⟨c', hh.mono hm, r⟩
   · exact Or.inr (h.mono hm)
 
-/-- the executor, when its first poll is a poll of the request `g` -/
-theorem run_from_res {g : Cfg} (ok : g.OK) (c : Conn) (n f N : Nat) (hsegs : c.env.segs = [])
-    (hres : Res g N (prePoll c n none)) (hN : N ≤ 100000) (hf : ans c.env.tr ≤ f)
-    (hlen : 4 * c.env.tr.input.length + 17 ≤ 100000) : RunEnd g (f + 1) c n := by
+/-- the executor, when its first poll ends in one of the ways of `Out g`; what is in the trace at the
+end of that poll stays there -/
+theorem run_from_out {g : Cfg} (ok : g.OK) (c : Conn) (n f N : Nat) (hsegs : c.env.segs = [])
+    {c' : Conn} {r : PRes} (hh : Halts N (prePoll c n none) c' r) (hl : Link (prePoll c n none) c')
+    (ho : Out g (prePoll c n none) c' r) (hN : N ≤ 100000) (hf : ans c.env.tr ≤ f)
+    (hlen : 4 * c.env.tr.input.length + 17 ≤ 100000) :
+    ∃ c'', ((c''.env.tr.endMode = c.env.tr.endMode ∧ ans c''.env.tr ≤ ans c.env.tr ∧ c''.env.segs = [] ∧
+        ∀ s, s ∈ c.env.tr.events → s ∈ c''.env.tr.events) ∧
+      ∃ O1 O2, O1 ++ O2 = g.Ot ∧
+      ((runTask (f + 1) c n none = (c'', "RET") ∧ Fin g O1 O2 c'') ∨
+       (runTask (f + 1) c n none = (c'', "STALL") ∧ Parked g O1 O2 c''))) ∧
+      ∀ s, s ∈ c'.env.tr.events → s ∈ c''.env.tr.events := by
   obtain ⟨hsame, hph, hsc, hstop, hmx, hsg, hwk⟩ := prePoll_same c n hsegs
-  obtain ⟨c', r, hh, hl, ho⟩ := hres
   have hpoll := hh.poll (F := 100000) hN
   have hans0 : ans (prePoll c n none).env.tr = ans c.env.tr := by unfold ans; rw [hsame.rd, hsame.wr]
   have hsg' : c'.env.segs = [] := hl.segs.trans hsg
@@ -335,20 +342,20 @@ theorem run_from_res {g : Cfg} (ok : g.OK) (c : Conn) (n f N : Nat) (hsegs : c.e
   have hem : c'.env.tr.endMode = c.env.tr.endMode ∧ ans c'.env.tr ≤ ans c.env.tr ∧ c'.env.segs = [] ∧
       ∀ s, s ∈ c.env.tr.events → s ∈ c'.env.tr.events :=
     ⟨hl.ts.em.trans hsame.em, by have := hl.ts.ans_le; omega, hsg', fun s hs => hl.ts.evm s (hsame.mem hs)⟩
-  unfold RunEnd
   rw [runTask_succ, hpoll]
   have again : ∀ (hs' : Stage g c'), ans c'.env.tr < ans (prePoll c n none).env.tr →
-      ∃ c2, (c2.env.tr.endMode = c.env.tr.endMode ∧ ans c2.env.tr ≤ ans c.env.tr ∧ c2.env.segs = [] ∧
+      ∃ c2, ((c2.env.tr.endMode = c.env.tr.endMode ∧ ans c2.env.tr ≤ ans c.env.tr ∧ c2.env.segs = [] ∧
           ∀ s, s ∈ c.env.tr.events → s ∈ c2.env.tr.events) ∧
         ∃ O1 O2, O1 ++ O2 = g.Ot ∧
         ((runTask f c' (n + 1) none = (c2, "RET") ∧ Fin g O1 O2 c2) ∨
-         (runTask f c' (n + 1) none = (c2, "STALL") ∧ Parked g O1 O2 c2)) := by
+         (runTask f c' (n + 1) none = (c2, "STALL") ∧ Parked g O1 O2 c2))) ∧
+        ∀ s, s ∈ c'.env.tr.events → s ∈ c2.env.tr.events := by
     intro hs' ha
     obtain ⟨c2, ⟨h1, h1', h1'', h1e⟩, h2⟩ :=
       run_from_stage ok (ans c'.env.tr) c' (n + 1) f hs' hsg' (Nat.le_refl _) (by omega) hlen'
-    exact ⟨c2, ⟨h1.trans hem.1, by have := hem.2.1; omega, h1'', fun s hs => h1e s (hem.2.2.2 s hs)⟩, h2⟩
+    exact ⟨c2, ⟨⟨h1.trans hem.1, by have := hem.2.1; omega, h1'', fun s hs => h1e s (hem.2.2.2 s hs)⟩, h2⟩, h1e⟩
   cases ho with
-  | @fin O1 O2 hO hfin => exact ⟨c', hem, O1, O2, hO, Or.inl ⟨rfl, hfin⟩⟩
+  | @fin O1 O2 hO hfin => exact ⟨c', ⟨hem, O1, O2, hO, Or.inl ⟨rfl, hfin⟩⟩, fun _ hs => hs⟩
   | pend hs' hw ha =>
     simp only [hw, if_true]
     exact again hs' ha
@@ -358,11 +365,19 @@ theorem run_from_res {g : Cfg} (ok : g.OK) (c : Conn) (n f N : Nat) (hsegs : c.e
       simp only [hw, Bool.false_eq_true, if_false]
       rw [release_nil _ hsg']
       simp only [hw, Bool.false_eq_true, if_false]
-      refine ⟨_, ?_, O1, O2, hO,
-        Or.inr ⟨rfl, hp.cong rfl rfl rfl rfl ⟨rfl, rfl, rfl, rfl, rfl, rfl, [], by simp, Quiet.nil⟩⟩⟩
+      refine ⟨_, ⟨?_, O1, O2, hO,
+        Or.inr ⟨rfl, hp.cong rfl rfl rfl rfl ⟨rfl, rfl, rfl, rfl, rfl, rfl, [], by simp, Quiet.nil⟩⟩⟩, fun _ hs => hs⟩
       exact hem
     · simp only [hw, if_true]
       exact again hs' ha
+
+/-- the executor, when its first poll is a poll of the request `g` -/
+theorem run_from_res {g : Cfg} (ok : g.OK) (c : Conn) (n f N : Nat) (hsegs : c.env.segs = [])
+    (hres : Res g N (prePoll c n none)) (hN : N ≤ 100000) (hf : ans c.env.tr ≤ f)
+    (hlen : 4 * c.env.tr.input.length + 17 ≤ 100000) : RunEnd g (f + 1) c n := by
+  obtain ⟨c', r, hh, hl, ho⟩ := hres
+  obtain ⟨c'', h, _⟩ := run_from_out ok c n f N hsegs hh hl ho hN hf hlen
+  exact ⟨c'', h⟩
 
 /-- **The executor** for stages `S` in front of the request `g`. -/
 theorem run_via {g : Cfg} (ok : g.OK) (S : Conn → Prop)
